@@ -217,6 +217,8 @@ class Array:
                     if product(d['shape']) == 0:  # empty file/array
                         self._memmap = np.zeros(d['shape'], dtype=dtypedescr,
                                                 order=d['arrayorder'])
+                        # in-memory stand-in should respect access mode
+                        self._memmap.flags.writeable = (memmapmode == 'r+')
                     else:
                         self._memmap = np.memmap(filename=fd,
                                                  mode=memmapmode,
